@@ -5,18 +5,18 @@ import Upd.ReadbackProofs
 Model: `Upd.mPut` / `Upd.mGet` on the memory store.  For a push answered 201, `a` is what validation accepted
 (`a.d` the digest of the bytes received, `a.mt` the media type, `a.len` the length, `a.tag` the tag).
 What has to hold in the state *before* the push for the read-back to return the pushed media type
-(`Upd.Consistent s r a`): nothing already recorded under the pushed digest — an index entry or child, a child the
+(`Upd.Rb.Consistent s r a`): nothing already recorded under the pushed digest — an index entry or child, a child the
 manifest lists, and, when the manifest has a subject, a descriptor in a referrers response — carries another media
 type or size, and the pushed digest is not that of a referrers response.  This is needed because lookups by digest
 return the *first* entry of the digest (`Upd.getDescDig`): see the note at `readback_by_digest`.
-For the tag: no tag names two digests and no entry has an empty digest before the push (`Upd.TagFunS`,
-`Upd.NoEmptyDigS`; the C18 invariants, proved for the index data structure in `Ixd`).
+For the tag: no tag names two digests and no entry has an empty digest before the push (`Upd.Rb.TagFunS`,
+`Upd.Rb.NoEmptyDigS`; the C18 invariants, proved for the index data structure in `Ixd`).
 `hrt : DigArg.parse a.d.str = .ok a.d` — the printed digest parses back — is a fact about the symbolic content
 names of the model (true for every body name the harness uses, `@…`; core has no `String.splitOn` lemmas to prove it).
 Tie: monitor `C02.readback` on profiles `mix`, `limits`.
 -/
 namespace C02b
-open Upd
+open Upd Upd.Rb
 
 /-- an acknowledged push (201) went through validation, answers with the digest of the bytes received, and afterwards
     the blob of that digest holds exactly those bytes — in every state that satisfies the C01 invariant -/
@@ -88,4 +88,6 @@ example : TagFunS (({} : State).repo "r").index.manifests ∧ NoEmptyDigS (({} :
   · intro _ _ e he; cases he
   · intro e he; cases he
 example : Inv {} := fun rp h => by cases h
+-- a concrete acknowledged push (an empty index pushed under tag `t1`), so `h201` and with it `hv` are satisfiable
+example : (mPut { defs := [("@i", { kind := "index", len := 7 })] } "r" "t1" "ocii" "" "@i").2.status = 201 := by decide
 end C02b
